@@ -129,6 +129,22 @@ Proof.
   destruct (pairs_complete x y (fvars f) Hx Hy Hne) as [Hp|Hp]; [left|right]; exists f; tauto.
 Qed.
 
+(* ---- add_factors: exactly the longest valid prefix is appended, in order ---------------------- *)
+Fixpoint valid_prefix (ns : list node) (new : list factor) : list factor :=
+  match new with
+  | [] => []
+  | f :: r => if subsetn (fvars f) ns then f :: valid_prefix ns r else []
+  end.
+Theorem add_factors_spec ns : forall new fs,
+  add_factors R ns fs new = (fs ++ valid_prefix ns new, forallb (fun f => subsetn (fvars f) ns) new).
+Proof.
+  induction new as [|f r IH]; intros fs; cbn [add_factors valid_prefix forallb].
+  - rewrite app_nil_r. reflexivity.
+  - destruct (subsetn (fvars f) ns); cbn [andb].
+    + rewrite IH, <- app_assoc. reflexivity.
+    + rewrite app_nil_r. reflexivity.
+Qed.
+
 (* ---- junction tree ----------------------------------------------------------------------------- *)
 (* product of the factors at positions i, i+1, ... whose is_used entry is still False *)
 Fixpoint Rem (fs : list factor) (i : nat) (U : list nat) (a : asg) : R :=
